@@ -261,6 +261,7 @@ type yn struct {
 	body []string // property statements
 	kids []*yn
 	sem  *sn
+	own  bool // uses: name the grouping with the module's own prefix ("uses m:g" means the same as "uses g")
 }
 
 func propsOf(n *sn) []string {
@@ -306,7 +307,12 @@ func toSyntax(f []*sn) []*yn {
 }
 
 func (y *yn) render(b *strings.Builder, ind string) {
-	fmt.Fprintf(b, "%s%s %s", ind, y.kw, y.arg)
+	arg := y.arg
+	if y.kw == "uses" && y.own && !strings.Contains(arg, ":") {
+		// main module and submodule both bind "m" to the module itself
+		arg = "m:" + arg
+	}
+	fmt.Fprintf(b, "%s%s %s", ind, y.kw, arg)
 	if len(y.body) == 0 && len(y.kids) == 0 {
 		b.WriteString(";\n")
 		return
@@ -516,7 +522,10 @@ func (f *factorizer) outlineGrouping() {
 		}
 		f.step("grouping-module")
 	}
-	u := &yn{kw: "uses", arg: usesArg}
+	u := &yn{kw: "uses", arg: usesArg, own: f.r.Intn(3) == 0}
+	if u.own {
+		f.step("uses-own-prefix")
+	}
 	if f.r.Intn(3) == 0 {
 		f.usesAugment(u, run)
 	}
